@@ -295,6 +295,11 @@ def run(res):
                 out_of_null = math.sqrt(max(H0, 0.0) / (lam_hi * lam_pos)) * float(np.linalg.norm(B, axis=1).max()) / (float(np.max(np.abs(y))) + 1e-300)
                 if out_of_null > 1e-3:
                     res.count('limit closeness not compared: lam = 1e8 has not reached the limit regime (bound on the non-null component > 1e-3)')
+                elif n <= N.shape[1] or n <= m:
+                    # with no more rows than coefficients the fit within the null space is determined by the sqrt(eps) ridge, and at lam = 1e8 the
+                    # Cholesky backward error of the code is a ridge of comparable or larger size: the heuristic comparison is meaningless there
+                    # (the proved rate bound above is what is evaluated, up to lam = 1e4)
+                    res.count('limit closeness not compared: n <= m (ridge-determined null-space fit)')
                 elif gap > 2e-2:
                     res.violations.append(dict(what='fit at lam = 1e8 is not close to the weighted least-squares fit within the unpenalised space (checked, not proved)',
                                                finding=None, input=inp, observed=dict(max_relative_gap=gap), expected='<= 2e-2'))
